@@ -451,7 +451,11 @@ Definition out_ok (mask : N) (gh : list (N * Z)) (m i : out) : bool :=
   | RLoad a, RLoad b => negb (bit mask 4) || Bool.eqb a b
   | RSnap h t w c lk, RSnap h' t' w' c' lk' =>
       (negb (bit mask 2) || ((h =? h')%Z && (t =? t') && (w =? w') && listN_eqb c c')) &&
-      (negb (bit mask 3) || lookups_ok gh lk lk')
+      (* (lookups: the harness writes a 0 into the reported chain when a height query does not
+         return a header hashing to the reported hash, when the range query over the whole best
+         chain fails or disagrees with the per-height answers, or when a height above the tip is
+         answered: "range and height queries return the same headers") *)
+      (negb (bit mask 3) || (lookups_ok gh lk lk' && negb (memN 0 c')))
   | RVerify a h f, RVerify a' h' f' =>
       negb (bit mask 7) || (Bool.eqb a a' && (h =? h')%Z && Bool.eqb f f') ||
       (* a header a Load dropped may still be known by height (never as best chain): a proof
